@@ -550,7 +550,7 @@ func (run *Run) finish() int {
 			if r.Crash {
 				run.Crashes[r.Key]++
 			}
-			if f, ok := knownByKey[r.Key]; ok && (c.Witness == "" || c.Witness == f.ID) {
+			if f, ok := knownByKey[r.Key]; ok {
 				knownSeen[f.ID]++
 				continue
 			}
